@@ -167,3 +167,44 @@ package table
 
 //@ lemma prefTotal: forall a *Path, b *Path :: wfPath(a) && wfPath(b) ==> specPref(a, b) || specPref(b, a)
 //@ lemma prefTransitive: forall a *Path, b *Path, c *Path :: wfPath(a) && wfPath(b) && wfPath(c) && medComparable(a, b) && medComparable(b, c) && medComparable(a, c) && specPref(a, b) && specPref(b, c) ==> specPref(a, c)
+
+// =============================================================================================
+// C11 — UPDATE packing respects the message size limit; an oversize route does not disturb the sender
+// =============================================================================================
+//@ props C11
+
+//@ func maxUpdateMessageLength
+//@   pure
+//@   modifies nothing
+//@   ensures result == 4096 || result == 65535
+//@   ensures result == (bgp.IsExtendedMessageSerialization(options) ? 65535 : 4096)
+
+// maxNLRIs: from C11 "each fit the session's maximum size": n NLRIs of at most 5 (+4 with ADD-PATH) octets
+// plus header (19), the two length fields (2+2) and the attributes fit the limit
+//@ func (*packerV4).pack$2
+//@   requires 0 <= attrsLen && attrsLen <= 1000000
+//@   pure
+//@   modifies nothing
+//@   ensures (addpathNLRILen == 0 || addpathNLRILen == 4) && result >= 1 ==> result*(5+addpathNLRILen) + 23 + attrsLen <= maxUpdateMessageLength(options)
+
+//@ func (*Path).GetNlri
+//@   pure
+//@   spec-only
+
+// split: from C11 "a route too large to fit any message ... is skipped and reported without disturbing the
+// other routes, the sender or the session": no panic for any max (no precondition on max)
+//@ func (*packerV4).pack$1
+//@   requires forall k int :: 0 <= k && k < len(paths) ==> paths[k] != nil && typeOf(paths[k].GetNlri()) == (*bgp.IPAddrPrefix)
+//@   modifies nothing
+//@   ensures len(result0) <= len(paths) && len(result1) <= len(paths)
+//@   ensures len(result0) == 0 || len(result1) < len(paths)
+//@   ensures forall k int :: 0 <= k && k < len(result1) ==> result1[k] != nil && typeOf(result1[k].GetNlri()) == (*bgp.IPAddrPrefix)
+//@   loop 0 invariant forall k int :: 0 <= k && k < len(paths) ==> paths[k] != nil && typeOf(paths[k].GetNlri()) == (*bgp.IPAddrPrefix)
+//@   loop 0 invariant len(nlris) == i && i <= max
+
+// loop: batches of at most maxNLRIs(attrsLen) prefixes; terminates; never panics, whatever attrsLen is
+//@ func (*packerV4).pack$3
+//@   requires 0 <= attrsLen && attrsLen <= 1000000
+//@   requires forall k int :: 0 <= k && k < len(paths) ==> paths[k] != nil && typeOf(paths[k].GetNlri()) == (*bgp.IPAddrPrefix)
+//@   loop 0 invariant forall k int :: 0 <= k && k < len(paths) ==> paths[k] != nil && typeOf(paths[k].GetNlri()) == (*bgp.IPAddrPrefix)
+//@   loop 0 decreases len(paths)
